@@ -134,6 +134,24 @@ class C04(fw.Prop):
                             b = q.to_state(st)
                             plain_in = ["recv", ["ard", "0", "mal1"], None] if k == "actRespData" else ["recv", ["s", k], None]
                             yield self.make_case({"cfg": cfg.to_json(), "ops": b + [plain_in], "tag": "plain-answer"})
+        # whatever conformance the meter negotiates, whatever the field values of the request, with and without the
+        # dedicated-ciphering option and a dedicated key announced by the caller: the content is the plain encoding of what the
+        # caller handed over, under the configured global keys
+        nconf = len(cl.CONF_NAMES)
+        reqs = ["getReq", "getReq@low+id9", "setReq@unconf", "actReq@id3", "getReq@sel", "setReq@low", "actReq@low+unconf"]
+        for suite, klen in ((0, 16), (2, 32)):
+            for conf in [0, (1 << nconf) - 1] + [rng.getrandbits(nconf) for _ in range(4 if deep else 1)]:
+                for ded in (0, 1, 2):
+                    for aarq in (1, 2, 3):
+                        ek, ak = (1, klen), (2, klen)
+                        cfg = cl.Cfg(ek=ek, ak=ak, suite=suite, auth=None, cic=rng.choice([0, 5, 2 ** 32 - 20]), dedicated=ded)
+                        q = PathK(cfg, ek, ak)
+                        q.name, q.conf = "ciphered", conf
+                        ops = [["send", "aarq", aarq], q.resp("aare", (0, None))]
+                        for r in rng.sample(reqs, 3):
+                            ops += [["send", r, 1], q.resp({"g": "getRespNormal", "s": "setResp", "a": "actResp"}[r[0]])]
+                        ops += [["send", "getReq", 1], q.resp("getRespBlock"), ["send", "getNext@low", 1], q.resp("getRespLastBlock"), ["send", "rlrq", 1]]
+                        yield self.make_case({"cfg": cfg.to_json(), "ops": ops, "tag": "conformance-fields-dedicated"})
         for via in ("direct", "tcp", "serial"):
             for suite in (0, 1, 2):
                 yield self.make_case({"via": via, "suite": suite, "title": "48455741" + "%08x" % rng.getrandbits(32), "cic": rng.choice([0, 7, 2 ** 31]),
